@@ -113,11 +113,11 @@ Definition wf_nla_systems (r : result) : bool :=
                          | None => false end) (ae_sibs e)
     && (length sys =? length (ae_vars e))) (r_eqs r).
 
-(* the classes an input equation reads *)
+(* the classes an input equation reads as plain variables (d(x)/d(t) reads the rate of x, not x) *)
 Fixpoint expr_names (e : expr) : list nat :=
   match e with
   | EVar n => [n]
-  | EDiff _ x => [x]
+  | EDiff _ x => []
   | ECn => []
   | EOp a b => expr_names a ++ expr_names b
   end.
